@@ -9,6 +9,8 @@ CONSTANTS
   ThinIdent = 10
   ThinDov = 12
   ThinFit = 60
+  ThinDec = 24
+  LongN = {41, 61, 81}
   Emit = TRUE
 INVARIANTS Theorems Vector
 CHECK_DEADLOCK FALSE
